@@ -97,6 +97,12 @@ def contracts(repo):
     items.append(resolve_element_spec())
     from . import C05 as _C05
     items += [_C05.set_attribute_single_spec(), _C05.get_attribute_single_spec()]      # the attribute services address the same Attribute objects
+    # what a read returns travels in the reply the dialect produces: its layout (type and data present for status 0x00 and 0x06, nothing else
+    # for a failure) and the BOOL element encoder are the contracts of C01, obligations of this property as well
+    from . import C01 as _C01
+    items += [s for s in _C01.scalar_specs() if s.name == 'BOOL.produce']
+    items += [s for s in _C01.logix_produce_specs() if 'reply' in s.name]
+    items += _C01.typed_data_specs()            # the element values of a reply / request in the tag's CIP type
     return items
 
 
